@@ -11,6 +11,8 @@ HUB_RULE = ('seeded histories (VERIF_SEED -> splitmix64) of 40-120 operations ov
             'commission rates {0,1e-18,0.003,0.01,0.5,0.999,random}, holder tiers, prices; operations: send, cancel, request-batch, deposit / transfer / '
             'batch-executed / other events (applied by EndBlocker), BeginBlock (timeouts, auto-batching), EndBlock (expiry refunds), governance token-list change; '
             'a separate hostile stream adds 2^250-scale amounts, negative and overflowing fees, zero deposits, unknown tokens. '
+            'One case in four lists the same contract address on ethereum and bsc for different assets; one in four scales the validator powers beyond 2^32 (the signer set given to the model is normalised by the harness, not read from the keeper); '
+            'quiet stretches of 4-17 empty blocks while batches wait; batch requests inside a transaction that fails afterwards (dropped cache branch). '
             'A case counts as non-trivial/agreeing when the model reproduces the implementation\'s observable state after every operation.')
 
 
@@ -30,9 +32,9 @@ VOTES_TB = [
     'inputs, not verified: the staking snapshot (mock staking keeper: bonded flag, LastValidatorPower, LastTotalPower as the sum of bonded powers), the orchestrator registry (C17), the claim hash (C14); '
     'applying an event is abstracted to "append to the log and credit its amount" (its effects: hub model, C01/C11)',
 ]
-VOTES_RULE = ('seeded histories of 60-150 operations for 2-6 validators (equal powers, tiny totals 1..3 for threshold rounding, one dominant, near-boundary 30..37, random up to 1e6), '
+VOTES_RULE = ('seeded histories of 60-150 operations for 2-6 validators (equal powers, tiny totals 1..3 for threshold rounding, one dominant, near-boundary 30..37, powers around 1e17 whose 66-fold exceeds int64, random up to 1e6), '
               '0..n registered orchestrators; operations: claims (in-order, repeated, skipped, arbitrary nonce, conflicting variants, from own account / orchestrator / foreign orchestrator / non-validator), '
-              'EndBlocker tallies, staking changes (powers and unbonding) between vote and tally. A case agrees when records, last observed nonce, per-validator nonces and credited supply match after every operation.')
+              'EndBlocker tallies, staking changes (powers and unbonding) between vote and tally, key rotations (a real signed MsgDelegateKeys with a fresh orchestrator and key for a validator in mid-sequence). A case agrees when records, last observed nonce, per-validator nonces and credited supply match after every operation.')
 
 
 def votes_suite():
@@ -54,9 +56,9 @@ REG_TB = [
     'abstractions: the signature check enters the model as "the address go-ethereum recovers from the message\'s signature over (validator, sequence-1)"; that the transaction is signed by the validator\'s own account is the SDK\'s GetSigners/ante handler (not modelled); '
     'chain ids are taken as exact map keys (registrations for chain ids that are byte-prefixes of each other are only over-restricted by the real scans); the confirmation signature itself is not verified by the code (stated in DESIGN.md)',
 ]
-REG_RULE = ('seeded histories of 50-120 operations for 2-5 validators, 4 orchestrator accounts, 6 external keys, chains ethereum/bsc/hub: registrations (fresh, re-registration, address or orchestrator already in use, unknown validator, zero address, '
-            'signature over a stale sequence, by another key, truncated), confirmations of signer sets / batches / contract calls (by validator, orchestrator, stranger; wrong chain, unknown tx, wrong or zero claimed signer, duplicates), '
-            'bonding changes, new outgoing txs; after every operation all three maps, the confirmations of every outgoing tx and the unsigned lists for every asker are compared.')
+REG_RULE = ('seeded histories of 50-120 operations for 2-5 validators (operator addresses with leading bytes 0xff, 0x00, 0x10, 0x7f, 0x80), 4 orchestrator accounts, 6 external keys, chains ethereum/bsc/minter/hub: registrations (fresh, re-registration, address or orchestrator already in use, unknown validator, zero address, '
+            'signature over a stale sequence, by another key, truncated, 65 zero bytes), confirmations of signer sets / batches / contract calls (by validator, orchestrator, stranger; wrong chain, unknown tx, wrong or zero claimed signer, duplicates), '
+            'bonding changes, new outgoing txs, batches observed as executed (preferring one that leaves an older batch of its token behind); every third case opens with two Minter batches of one coin, confirmed, the later executed first; after every operation all three maps, the confirmations of every outgoing tx and the unsigned lists for every asker are compared.')
 
 PROPS = {
     'C16': {'suites': [{'name': 'reg', 'quick': '-n 150 -ops 60', 'thorough': '-n 1500 -ops 120', 'shards': {'quick': 2, 'thorough': 16}}],
@@ -177,7 +179,8 @@ PROPS = {
             'rule': 'pairs (event, mutant) over the five event types: identical copy; one field changed (nonce, height, coin, amount incl. x256 / negation, fee, sender incl. case and 0x prefix, receiver, chain, tx hash, '
                     'batch nonce, fee paid incl. unset, fee payer, scope, invalidation nonce, return data, set nonce, member power / order / addition / double duplication); '
                     'boundary shifts (last byte of the coin id into the amount, receiver into chain or sender, scope into return data, tx hash into payer); member powers exchanged between two addresses; '
-                    'separator-absorbing pairs (field i swallows the bytes the implementation writes between fields i and j, field j carries them in the twin event).',
+                    'separator-absorbing pairs (field i swallows the bytes the implementation writes between fields i and j, field j carries them in the twin event); '
+                    'sign/width pairs (fee or fee-paid = -x with a k-byte magnitude against 2^(8k)+x, k in {1,3,7,8,15,31}).',
             'assumptions': ['event nonces, heights and powers are below 2^64 and fields shorter than 2^64 bytes (hypothesis xwf)']},
     'C07': {'gen': ['gen_srcfacts.py'],
             'suites': [{'name': 'ckpt', 'quick': '-n 50', 'thorough': '-n 600', 'shards': {'quick': 2, 'thorough': 16}},
@@ -191,8 +194,8 @@ PROPS = {
                 'modelled: the relayer\'s mapping of hub fields to contract parameters (relay_valset / relay_batch, as the orchestrator passes them); ECDSA recovery is an abstract function; '
                 'collision resistance of Keccak-256 is assumed for "no other digest"; the EVM\'s own abi.encode/ecrecover are exercised through the compiled contract in the C08 suite'],
             'rule': 'ckpt: random gravity ids (0..32 bytes), nonces/timeouts up to 2^63, 0..120 members with powers up to 2^32, batches of 0..100 transfers with amounts in {0, 2^256-1, powers of 256, random widths}, '
-                    'addresses with leading zero bytes, contract calls with payloads of 0/1/31/32/33/64/100/1000 bytes and scopes of 0/1/20/32 bytes. sig: fresh secp256k1 keys; valid signatures, other claimed address, '
-                    'v=27/28 and 0/1, short, long, damaged signatures, other digest.',
+                    'addresses with leading zero bytes and in every spelling IsHexAddress accepts (checksummed, lower, upper, 0X prefix, no prefix), contract calls with payloads of 0/1/31/32/33/64/100/1000 bytes and scopes of 0/1/20/32 bytes. sig: fresh secp256k1 keys; valid signatures, other claimed address, '
+                    'v=27/28 and 0/1, short, long, damaged signatures, other digest, the high-s twin (r, n-s, v^1) of a valid signature.',
             'assumptions': ['Keccak-256 collision resistance and ECDSA unforgeability (not proved; the scheme agreement holds for any recovery function)']},
     'C09': {'suites': [{'name': 'sigset', 'quick': '-n 400 -ops 25', 'thorough': '-n 3000 -ops 60', 'shards': {'quick': 2, 'thorough': 16}}],
             'trusted_base': SIG_TB, 'rule': SIG_RULE,
@@ -213,9 +216,13 @@ PROPS = {
                             'the per-user bound is stated for tokens with at most 18 external decimals (more: known finding)']},
     'C12': {'suites': hub_suite(hostile=False), 'trusted_base': HUB_TB, 'rule': HUB_RULE,
             'assumptions': ['chain ids are prefix-free', 'expiry is decided on whole-millisecond block times (the harness only uses such times)']},
-    'C13': {'suites': hub_suite(hostile=False), 'trusted_base': HUB_TB, 'rule': HUB_RULE,
+    'C13': {'suites': hub_suite(hostile=False) + [
+                # the clock of the timeout sweep: the stored external height moves only when the tally applies a claim
+                {'name': 'votesh', 'quick': '-n 150 -ops 60', 'thorough': '-n 2000 -ops 120', 'shards': {'quick': 2, 'thorough': 16}}],
+            'trusted_base': HUB_TB + ['coq/Hub/VotesHeight.v wraps the vote model (C02/C03) with the external heights the claims report; tied to /repo by the votesh suite (real msg server + EndBlocker, sub-quorum and conflicting claims with different heights, key rotations, staking changes)'],
+            'rule': HUB_RULE,
             'assumptions': ['chain ids are prefix-free',
-                            '"can no longer execute" relies on the contract model (block.number < timeout, per-token nonce) of C08 and on observed heights coming only from applied events (C03)']},
+                            '"can no longer execute" relies on the contract model (block.number < timeout, per-token nonce) of C08; that observed heights come only from applied claims is the theorem C13_observed_height_only_from_applied_claims']},
     'C10': {'suites': hub_suite(), 'trusted_base': HUB_TB, 'rule': HUB_RULE,
             'assumptions': ['chain ids are prefix-free', 'uint64 counters do not wrap']},
 }
@@ -294,7 +301,7 @@ TEXT = {
             'level': 'Theorems: cancel succeeds only for an unbatched entry of that chain and its sender; the entry is gone afterwards (pool and batches); hub-origin refund = recorded amounts converted back, exact for >=18 decimals, bounded loss otherwise ("exactly" refuted for <18 decimals: known finding). Monitors check authorisation, removal, amount, destination and expiry on the implementation.',
             'note': _HUB_NOTE},
     'C13': {'technique': 'Coq characterisation (iff) of batch removal by sweep and by execution + correspondence',
-            'level': 'Theorems (every state satisfying the proved invariant): the timeout sweep removes a batch iff it is of that chain with timeout below the observed height; Minter batches are never withdrawn by BeginBlocker; an execution removes exactly the batch and (non-Minter) the older same-token batches. Monitors check the same on the implementation, with contract-consistent external executions.',
+            'level': 'Theorems (every state satisfying the proved invariant): the timeout sweep removes a batch iff it is of that chain with timeout below the observed height; Minter batches are never withdrawn by BeginBlocker; an execution removes exactly the batch and (non-Minter) the older same-token batches; the last observed external height (the clock of the sweep) is moved by the tally alone and only to the height of a claim it has just applied (with C02: a claim that had the quorum). Monitors check the same on the implementation, with contract-consistent external executions.',
             'note': _HUB_NOTE},
     'C19': {'technique': 'Coq inequalities over Z for arbitrary batches + correspondence',
             'level': 'Theorems for all batches/fee spreads/power splits: reimbursement <= total fee, sum of refunds <= surplus, each refund <= own fee (<=18 decimals), commission shares floor-proportional with sum <= collected, fee record within [0, fee]; the per-user bound is refuted for >18 decimals by a kernel-checked witness. Monitors on the implementation.',
